@@ -208,7 +208,8 @@ CONTRACTS.update(
                 "joinnl(result[1:]) == textnl(self.lAllObjects)",
             ],
             defines=["result == LINES(self)"],
-            loops={1: dict(invariant=["len(lReturn) == 1 + _i", "lReturn[0] == ''", "joinnl(lReturn[1:]) == linescr(_it[:_i])"])},
+            # (the invariant speaks about the whole list, whose first element is the empty line 0: appending then needs no slice of a growing list)
+            loops={1: dict(invariant=["len(lReturn) == 1 + _i", "lReturn[0] == ''", "joinnl(lReturn) == '\\n' + linescr(_it[:_i])"])},
         ),
     }
 )
@@ -349,6 +350,40 @@ CONTRACTS.update(
             raises=["ClassifyError", "IndexError"],
             ensures=["result >= iToken"],
             loops={1: dict(invariant=["iToken <= iCurrent", "iCurrent <= len(lObjects)", "len(lObjects) == len(old(lObjects))"], decreases="len(lObjects) - iCurrent")},
+        ),
+    }
+)
+
+# ---------------------------------------------------------------------------------------------- single-line comments (C02 / C04)
+# When the classifier meets '--' outside a delimited comment, the rest of the line (up to trailing white space) becomes ONE
+# comment token: no character of the line is lost or duplicated (text(line) unchanged), everything in front of the comment is
+# untouched, and the comment's value is exactly the concatenation of the tokens it replaces.
+OPT = "obj:vsg.vhdlFile.vhdlFile.options"
+CONTRACTS.update(
+    {
+        "vsg.vhdlFile.classify.comment.classify_single_line_comment": dict(
+            types={"iToken": "int", "lObjects": "list[%s]" % ITEM, "oOptions": OPT},
+            fields={"vsg.vhdlFile.vhdlFile.options.bInsideDelimitedComment": "bool", "vsg.parser.comment.is_block_comment": "bool", "vsg.parser.comment.block_comment_indent": "opt[int]", "vsg.parser.comment.has_tab": "bool"},
+            requires=["0 <= iToken", "iToken < len(lObjects)"],
+            returns="bool",
+            modifies=["lObjects", "heap:comment.has_tab", "heap:item.has_tab"],
+            ensures=[
+                "text(lObjects) == old(text(lObjects))",
+                # everything in front of the comment is untouched
+                "forall(lambda k: lObjects[k] is old(lObjects)[k], 0, iToken)",
+                "implies(not result, lObjects == old(lObjects))",
+                # a comment starts exactly at a token that begins with '--' outside a delimited comment
+                "result == (not oOptions.bInsideDelimitedComment and old(lObjects[iToken].value).startswith('--'))",
+                "implies(result, isinstance(lObjects[iToken], parser.comment) and len(lObjects) <= iToken + 2)",
+                # the comment token spells exactly what it replaces: with whatever follows it (at most the trailing white space,
+                # the same object as before) it is the text from the '--' on
+                "implies(result, lObjects[iToken].value + text(lObjects[iToken + 1:]) == old(text(lObjects[iToken:])))",
+                "implies(result and len(lObjects) == iToken + 2, lObjects[iToken + 1] is old(lObjects[len(lObjects) - 1]))",
+            ],
+            loops={
+                1: dict(invariant=["sToken == text(lObjects[iToken:iToken + 1 + _i])", "iEndIndex == len(lObjects) or iEndIndex == len(lObjects) - 1"]),
+                2: dict(invariant=["lObjects == entry(lObjects)[:iToken + 1] + entry(lObjects)[iToken + 1 + _i:]"]),
+            },
         ),
     }
 )
